@@ -134,6 +134,39 @@ def _escape_chunk(args):
     return part
 
 
+LONG_COUNTS = [8, 16, 31, 32, 33, 34, 63, 64, 65, 100, 127, 128, 129, 255, 256, 257, 1000, 4097]
+
+
+def long_texts(ctx):
+    """Long inputs: every token repeated n times, and cycles through the specials, for n
+    around powers of two and well beyond (a replacement count, a buffer size or a recursion
+    limit shows only past some length)."""
+    counts = list(LONG_COUNTS) + ([10 ** 4, 65537] if ctx.thorough else [])
+    out = []
+    for count in counts:
+        for token in TOKENS:
+            out.append(token * count)
+        cycle = "&<>\"'"
+        out.append((cycle * (count // 5 + 1))[:count])
+        out.append("a&" * count)
+        out.append(("x<y>&amp;'" * count)[:count * 3])
+        out.append("a" * count + "&" + "b" * count + "<")
+    return out
+
+
+def _long_chunk(texts):
+    part = core.Part()
+    for text in texts:
+        for clause, msg in check_escape(text):
+            short = text if len(text) <= 40 else f"{text[:20]}...({len(text)} characters)"
+            part.violation(f"{clause}:long:{core.digest(text)}", msg.replace(repr(text), repr(short)),
+                           {"kind": "escape", "text": text})
+        part.count("escape_cases")
+        part.count("long_escape_cases")
+        part.count("nontrivial")
+    return part
+
+
 def _duration_chunk(args):
     start, stop, step = args
     part = core.Part()
@@ -171,7 +204,7 @@ def _int_chunk(values):
 
 def _dispatch(job):
     return {"esc": _escape_chunk, "dur": _duration_chunk, "half": _half_chunk,
-            "int": _int_chunk}[job[0]](job[1])
+            "int": _int_chunk, "long": _long_chunk}[job[0]](job[1])
 
 
 def run(ctx):
@@ -180,6 +213,8 @@ def run(ctx):
     for length in range(1, max_len + 1):
         for chunk in core.split(TOKENS, 16):
             jobs.append(("esc", (chunk, length)))
+    for chunk in core.split(long_texts(ctx), 16):
+        jobs.append(("long", chunk))
     top = 3_700_000
     span = top // 64 + 1
     for start in range(0, top + 1, span):
@@ -202,13 +237,15 @@ def run(ctx):
         "evaluations": total,
         "distinct_nontrivial": cnt.get("nontrivial", 0),
         "rule": f"all token sequences of length 0..{max_len} over {len(TOKENS)} tokens (special "
-                "characters, pre-escaped entities, mixed quotes) parsed back with lxml; every "
+                "characters, pre-escaped entities, mixed quotes) parsed back with lxml; every token "
+                f"and four mixed patterns repeated {LONG_COUNTS} times; every "
                 "integer millisecond 0..3,700,000 as ms and as seconds; three floats around every "
                 f"k+0.5 s for k in 9..{half_top}; integers to 1e7; non-trivial = texts mixing "
                 "ampersands with other specials, durations within 0.1 s of a half-second boundary",
         "samples": core.rotate(part.samples, ctx.seed, 3) + [{"milliseconds": 3599500},
                                                              {"seconds": 59.5}],
         "escape_cases": cnt.get("escape_cases", 0),
+        "long_escape_cases": cnt.get("long_escape_cases", 0),
         "duration_cases": cnt.get("duration_cases", 0),
         "exhaustive": True,
     }
